@@ -228,6 +228,10 @@ def mon_c14(k, domain, bind_port=None, wildcard=False):
     pend = {}       # (src, id, labels, qtype) -> count of unanswered deliveries
     held = {}       # userid -> {(labels_lower, qtype): count}
     held_since = {} # (userid, held key) -> time the (first copy of the) query arrived
+    raw_seen = set()    # slots for which a raw-mode login was received since they were handed out
+    legacy = {}     # (userid, held key) -> ping/data queries of the session received since it went back to immediate mode
+    legacy_t = {}   # (userid, held key) -> when the second of those arrived
+    asked_ids = set()   # (address, DNS id) of every query datagram received
     lazy_req = {}   # userid -> False from the version answer that hands out the slot, True once lazy mode was asked for in it
     skip = fwd_causes(k, bind_port)
     triggers = set()
@@ -243,9 +247,16 @@ def mon_c14(k, domain, bind_port=None, wildcard=False):
                 # being held back is forgotten (never answered), which C14 permits - it is no longer "held"
                 if len(d) >= 4:
                     held.pop(d[3] & 0x0F, None)
+                    if (d[3] & 0xF0) == 0x10:
+                        # a raw-mode login for that slot: if it succeeds the session's DNS queries are no longer served on the
+                        # 20 ms timer (the server flushes those for DNS-mode sessions only); whoever keeps talking DNS in such a
+                        # session is not an immediate-mode client in the sense of the rule below
+                        raw_seen.add(d[3] & 0x0F)
                 continue
             if kw["src"] == ("127.0.0.1", bind_port):
                 continue
+            if len(d) >= 3 and not (d[2] & 0x80):
+                asked_ids.add((kw["src"], (d[0] << 8) | d[1]))
             try:
                 m = proto.parse_msg(d)
             except proto.ParseError:
@@ -265,12 +276,26 @@ def mon_c14(k, domain, bind_port=None, wildcard=False):
                 tk = _tunnel_kind(labels[0], text)
                 if tk:
                     hk = (tuple(ql), t)
+                    for lk in list(legacy):
+                        if lk[0] == tk[1] and lk[1] != hk:
+                            legacy[lk] += 1
+                            if legacy[lk] == 2:
+                                legacy_t[lk] = ev[0]
                     h = held.setdefault(tk[1], {})
                     if hk not in h:
                         held_since[(tk[1], hk)] = ev[0]
                     h.setdefault(hk, []).append(key)
         elif kind == "send":
             d = kw["data"]
+            if kw.get("cause") in skip and not (bind_port and kw["dst"] == ("127.0.0.1", bind_port)):
+                # a reply of the local DNS server handed on (-b): it goes to somebody who sent a query with that id (what it says
+                # is the local server's business, and how often it may be handed on is C20's)
+                stats["c14_relayed_replies"] = stats.get("c14_relayed_replies", 0) + 1
+                rid = ((d[0] << 8) | d[1]) if len(d) >= 2 else None
+                if (kw["dst"], rid) not in asked_ids:
+                    viol.append(("C14:relayed-reply-to-somebody-who-never-asked", "a %d-byte reply of the local DNS server with id %r was sent to %s, which never sent a query with that id"
+                                 % (len(d), rid, kw["dst"]), {"time_us": ev[0], "datagram": d.hex()[:200]}))
+                continue
             if _is_raw(d) or kw.get("cause") in skip or (bind_port and kw["dst"] == ("127.0.0.1", bind_port)):
                 continue
             try:
@@ -289,6 +314,21 @@ def mon_c14(k, domain, bind_port=None, wildcard=False):
                              {"time_us": ev[0], "datagram": d.hex()[:600]}))
                 continue
             pend[key] = n - 1
+            if labels and labels[0][:1].lower() == b"o" and len(labels[0]) >= 3:
+                # the server's own acknowledgement of an options request says which mode the session is in from now on
+                try:
+                    op_ = proto.extract_payload(m)
+                except (proto.ParseError, proto.Undecodable, IndexError, struct.error):
+                    op_ = None
+                ouid = proto.B32.find(labels[0][1:2].lower())
+                if op_ == b"Lazy":
+                    lazy_req[ouid] = True
+                elif op_ == b"Immediate" and ouid in lazy_req:
+                    lazy_req[ouid] = False
+                    # what the server was still holding back from the lazy phase goes out when the next query of the session
+                    # arrives ("if we are in non-lazy mode, there should be no query waiting, but if there is, send immediately")
+                    for hk_ in held.get(ouid, {}):
+                        legacy[(ouid, hk_)] = 0
             if labels and labels[0][:1].lower() == b"v":
                 # a version handshake that hands out a slot re-initialises it: whatever was being held back for the
                 # slot's previous occupant is dropped (never answered), it is no longer "held"
@@ -297,6 +337,7 @@ def mon_c14(k, domain, bind_port=None, wildcard=False):
                     if vp[:4] == b"VACK" and len(vp) >= 9:
                         held.pop(vp[8], None)
                         lazy_req[vp[8]] = False          # a new session starts in immediate mode
+                        raw_seen.discard(vp[8])
                 except (proto.ParseError, proto.Undecodable, IndexError, struct.error):
                     pass
             ql = tuple(l.lower() for l in labels)
@@ -306,6 +347,7 @@ def mon_c14(k, domain, bind_port=None, wildcard=False):
                 if (ql, t) in h:
                     del h[(ql, t)]
                     held_since.pop((uid, (ql, t)), None)
+                    legacy.pop((uid, (ql, t)), None)
                     break
             ck = kw.get("cause")
             triggers.add("timer" if ck is None else ("tun" if isinstance(ck, tuple) else "query"))
@@ -331,12 +373,19 @@ def mon_c14(k, domain, bind_port=None, wildcard=False):
                     viol.append(("C14:more-than-two-held", "session %d has %d distinct unanswered ping/data queries at a quiescent point" % (uid, n),
                                  {"time_us": ev[0], "held": [repr(x[0][0][:16]) for x in list(h)[:5]]}))
                     h.clear()
-                elif n and lazy_req.get(uid) is False:
+                elif n and lazy_req.get(uid) is False and uid not in raw_seen:
                     # the session was handed its slot in this log and nobody ever asked for lazy mode in it: it is in immediate
                     # mode, where a ping/data query is answered when it arrives or (the acknowledgement of a packet's last
                     # fragment) "after just a tiny little while" - 20 ms; half a virtual second is far beyond that
                     stats["c14_immediate_mode_waits_with_held"] = stats.get("c14_immediate_mode_waits_with_held", 0) + 1
-                    old = [hk for hk in h if held_since.get((uid, hk), ev[0]) <= ev[0] - 500000]
+                    old = [hk for hk in h if held_since.get((uid, hk), ev[0]) <= ev[0] - 500000 and (uid, hk) not in legacy]
+                    late = [hk for hk in h if legacy.get((uid, hk), 0) >= 2 and legacy_t.get((uid, hk), ev[0]) <= ev[0] - 500000]
+                    if late:
+                        viol.append(("C14:query-held-from-lazy-phase-never-answered", "session %d went back to immediate mode; a query the server was holding from the lazy phase is still unanswered although two newer queries of the session have arrived since"
+                                     % uid, {"time_us": ev[0], "held": [repr(x[0][0][:16]) for x in late[:3]]}))
+                        for hk in late:
+                            h.pop(hk, None)
+                            legacy.pop((uid, hk), None)
                     if old:
                         viol.append(("C14:immediate-mode-query-held", "session %d never asked for lazy mode, yet %d ping/data quer%s been unanswered for more than 0.5 s (virtual) at a quiescent point"
                                      % (uid, len(old), "y has" if len(old) == 1 else "ies have"), {"time_us": ev[0], "held": [repr(x[0][0][:16]) for x in old[:5]]}))
